@@ -42,7 +42,7 @@ THEOREMS = {
             "Layout.writer_reader_agree", "Layout.blocks_inside", "Layout.blocks_disjoint", "Layout.blocks_cover", "Layout.blocks_partition",
             "Gen.slice_table", "Gen.slices_plain", "Gen.orders_columns", "Gen.final_demand_columns", "Gen.rebuild_part_columns", "Gen.rebuild_parts_split", "Gen.resize_keeps_orders_and_final_demand", "Gen.delivery_columns", "Gen.writer_is_layout", "Gen.reader_is_layout", "Gen.code_writer_reader_agree"],
     "C20": ["psi_above_one_rejected", "schedule_outside_horizon_rejected", "excess_capital_rejected", "negative_capacity_rejected",
-            "event_tau_rejected", "event_schedule_rejected", "event_negative_impact_rejected", "event_empty_impact_rejected", "event_excess_loss_rejected", "event_shares_rejected", "event_accepted", "params_ok", "init_econ_ok", "tracker_init_ok", "inv_step", "step_quantities_nonneg", "no_silent_failure", "inv_reach"],
+            "event_tau_rejected", "event_schedule_rejected", "event_negative_impact_rejected", "event_empty_impact_rejected", "event_excess_loss_rejected", "event_shares_rejected", "event_negative_share_rejected", "event_nonpositive_factor_rejected", "event_accepted", "event_accepted_rebuild", "params_ok", "init_econ_ok", "tracker_init_ok", "inv_step", "step_quantities_nonneg", "no_silent_failure", "inv_reach"],
     "C02": ["specDemand_eq", "step_refines_spec", "nextStep_econ", "Records.phase_order"],
     "C19": ["lifecycle_shift", "recoverOne_shift", "eventsPost_shift", "eventsPre_shift", "shift_step", "overprod_identity_at_rest",
             "shift_step_early", "shift_run_partial", "equilibrium_step_exact", "shift_invariance", "Gen.monotony_never_incremented",
@@ -224,6 +224,14 @@ for _pid in REPORTED:
             THEOREMS[_pid] = THEOREMS[_pid] + [_t]
     if "Boario.Properties.C16" not in MODULES[_pid]:
         MODULES[_pid] = MODULES[_pid] + ["Boario.Properties.C16"]
+
+# no result depends on what freed memory holds (Properties/MaskedThm.lean over the regenerated Gen/Masked.lean: masked ufuncs
+# write into initialised arrays, raw allocations are filled first)
+for _pid in ("C17", "C20"):
+    THEOREMS[_pid] = THEOREMS[_pid] + ["Masked.deterministic_iff", "Masked.missing_out_reads_memory", "Gen.masked_calls_inventory",
+                                       "Gen.masked_calls_initialised", "Gen.masked_calls_deterministic", "Gen.raw_allocs_filled",
+                                       "Gen.raw_allocs_deterministic"]
+    MODULES[_pid] = MODULES[_pid] + ["Boario.Properties.MaskedThm"]
 
 # properties whose Lean side includes tables regenerated from the source on every run
 GEN = {"C16": True, "C17": True, "C02": True, "C14": True, "C04": True, "C11": True, "C05": True, "C19": True, "C01": True, "C10": True,
